@@ -1018,7 +1018,8 @@ def _run(world: World, plan, restore):
                     for name in names:
                         note_disk_change(os.path.join(base, name))
                 shutil.rmtree(path, ignore_errors=True)
-                if step.get('as_file') and not model.is_shared(path):
+                configured = {P(e['dir']) for e in plan.get('initial', [])}      # (a reload shares these again)
+                if step.get('as_file') and not model.is_shared(path) and path not in configured:
                     # (a plain file at the path of a configured shared directory is neither "a file under a shared
                     # directory" nor a directory: not generated)
                     with open(path, 'wb') as fh:
